@@ -27,13 +27,13 @@ CHECKS.append(
     dict(id="C16", level="other", engine="E1+E3",
          text="Every cycle of the resolved workspace call graph is an audited table entry whose class bounds depth by "
               "data nesting / log n / query size / a constant; unknown cycles, new recursive call sites in audited "
-              "cycles, loop-as-recursion patterns and iterators re-wrapped in a loop are violations; an entry may rest on a depth guard that is re-verified on every run (the pretty printer's MAX_DEPTH). Decides the recursion-structure clause (a necessary "
+              "cycles, loop-as-recursion patterns and iterators re-wrapped in a loop are violations; an entry may rest on a depth guard that is re-verified on every run (the pretty printer's MAX_DEPTH); every recursive data type of the workspace is classified, and a list-shaped one (one self occurrence per node, drop glue recursing once per element) must have a loop-based Drop. Decides the recursion-structure clause (a necessary "
               "condition for size-independent stack use), not frame sizes.",
          note=""
               "Trusted: rustc's callee resolution; the audit reasons in rules/tables/recursion.py. Calls through type "
               "parameters are not linked to impls (monomorphic recursion through them is bounded by type nesting). "
               "Third-party crates not analysed.",
-         technique="static: SCCs of the MIR call graph + audited table + argument-provenance patterns"))
+         technique="static: SCCs of the MIR call graph + audited table + argument-provenance patterns + shape of recursive ADTs"))
 CHECKS.append(
     dict(id="C10", level="other", engine="E1+E3",
          text="Enumerates every lifetime-only transmute in sophia_inmem/sophia_api from MIR and enforces the ownership "
